@@ -99,7 +99,31 @@ def lines_of_const_str_and_path(model):
             actual = list(lines)
         if _report('_StringSourceContentsOfConstStrAndExistingPath.as_lines', text, split_nl(text), actual):
             return 1
+        # re-readability: every pair of uses, in both orders, on a fresh object: the second use sees the text too
+        for first in sorted(_USES):
+            for second in sorted(_USES):
+                c = frozen._StringSourceContentsOfConstStrAndExistingPath(text, p, sp)
+                _USES[first](c)
+                if _report('_StringSourceContentsOfConstStrAndExistingPath: %s after %s' % (second, first),
+                           text, text, _USES[second](c)):
+                    return 1
     return 0
+
+
+def _use_as_lines(c):
+    with c.as_lines as lines:
+        return ''.join(lines)
+
+
+def _use_write_to(c):
+    out = io.StringIO()
+    c.write_to(out)
+    return out.getvalue()
+
+
+# the four ways to consume a text, each giving the text it saw
+_USES = {'as_str': lambda c: c.as_str, 'as_lines': _use_as_lines, 'as_file': lambda c: file_text(c.as_file),
+         'write_to': _use_write_to}
 
 
 def as_file_of_contents_of_str(model):
@@ -193,3 +217,80 @@ def source(fn_name):
     """python source of a replay script body"""
     return ('from contracts import replays_c14\n'
             'sys.exit(replays_c14.%s(MODEL))\n' % fn_name)
+
+
+# ------------------------------------------------------------------------------ concatenation of sources: bounded stand-in
+# (the deductive proof of `_ConcatStringSourceContents._lines_iter` is switched off: C14_text_value._LINES_ITER_PROOF)
+
+CONCAT_PART_TEXTS = ('', 'a', 'a\n', '\n', 'a\nb', 'a\nb\n', '\n\n', '\nb')
+CONCAT_PART_KINDS = ('str', 'file', 'lines', 'concat')
+
+
+class ConcatBench:
+    """Builds REAL sources of the four kinds of parts and REAL `_ConcatStringSourceContents` objects over them:
+    'str'    constant_str.string_source (ContentsOfStr),
+    'file'   a source over StringSourceContentsOfExistingPath (a real file holding the text),
+    'lines'  TransformedStringSourceFromLines with a generator as transformation (lines arrive lazily),
+    'concat' a nested concatenation (concat.string_source of the two halves of the text)."""
+
+    def __init__(self):
+        self.space = _Space()
+        self._files = {}
+
+    def part(self, kind, text):
+        from exactly_lib.impls.types.string_source import constant_str
+        from exactly_lib.impls.types.string_source.source_from_contents import StringSourceWConstantContents
+        from exactly_lib.impls.types.string_source.contents.contents_of_existing_path import \
+            StringSourceContentsOfExistingPath
+        from exactly_lib.type_val_prims.string_source.impls import concat, transformed_string_sources
+        if kind == 'str':
+            return constant_str.string_source(text, self.space)
+        if kind == 'file':
+            p = self._files.get(text)
+            if p is None:
+                p = self.space.new_path()
+                with open(str(p), 'w', newline='') as f:
+                    f.write(text)
+                self._files[text] = p
+            return StringSourceWConstantContents(lambda: None, StringSourceContentsOfExistingPath(p, self.space))
+        if kind == 'lines':
+            return transformed_string_sources.TransformedStringSourceFromLines(
+                lambda lines: (line for line in lines), constant_str.string_source(text, self.space), False,
+                lambda: None)
+        if kind == 'concat':
+            k = len(text) // 2
+            return concat.string_source([self.part('str', text[:k]), self.part('str', text[k:])], 1 << 20)
+        raise ValueError(kind)
+
+    def contents(self, texts, kinds):
+        from exactly_lib.type_val_prims.string_source.impls import concat
+        return concat._ConcatStringSourceContents([self.part(k, t) for k, t in zip(kinds, texts)], 'concat')
+
+    def failure(self, texts, kinds, with_file=False):
+        """None, or what differs: every way of reading the concatenation (twice line-wise: re-readability) must
+        give the concatenated texts / their division after new-lines"""
+        whole = ''.join(texts)
+        c = self.contents(texts, kinds)
+        with c.as_lines as lines:
+            first = list(lines)
+        if first != split_nl(whole):
+            return ('as_lines', split_nl(whole), first)
+        if c.as_str != whole:
+            return ('as_str', whole, c.as_str)
+        if list(c._lines_iter()) != split_nl(whole):
+            return ('_lines_iter (second reading)', split_nl(whole), list(c._lines_iter()))
+        if _use_write_to(c) != whole:
+            return ('write_to', whole, _use_write_to(c))
+        if with_file and file_text(c.as_file) != whole:
+            return ('as_file', whole, file_text(c.as_file))
+        return None
+
+
+def concat_case(texts, kinds):
+    """replay of one failing case of the bounded stand-in"""
+    f = ConcatBench().failure(list(texts), list(kinds), with_file=True)
+    if f is None:
+        print('concatenation of %r (%s): every reading gives %r' % (texts, ', '.join(kinds), ''.join(texts)))
+        return 0
+    print('concatenation of %r (%s): %s\n    expected %r\n    actual   %r' % (texts, ', '.join(kinds), f[0], f[1], f[2]))
+    return 1
